@@ -232,7 +232,7 @@ func checkC10(c ProtoCase, st *Stats) error {
 	return err
 }
 
-var propC10 = Register(Prop[ProtoCase]{ID: "C10", Name: "C10", Check: checkC10})
+var propC10 = Register(Prop[ProtoCase]{ID: "C10", Name: "C10", Pending: true, Check: checkC10})
 
 func TestC10Rapid(t *testing.T) {
 	p := propC10
